@@ -8,10 +8,10 @@ use std::mem::ManuallyDrop;
 pub struct C20;
 
 #[derive(Clone, Copy, Debug, PartialEq)]
-enum Op { Generate, FromBytes, Clone(usize), Drop(usize), Unwind(usize) }   // Unwind(i): container i is dropped by stack unwinding out of a panic
+enum Op { Generate, FromBytes, Clone(usize), Drop(usize), Unwind(usize), CloneFrom(usize, usize) }   // Unwind(i): container i is dropped by stack unwinding out of a panic; CloneFrom(i, j): live[i].clone_from(&live[j]) — the value i held is released
 
-fn ops_alphabet(slots: usize) -> Vec<Op> { let mut v = vec![Op::Generate, Op::FromBytes]; for i in 0..slots { v.push(Op::Clone(i)); v.push(Op::Drop(i)); } v.push(Op::Unwind(0)); v.push(Op::Unwind(1)); v }
-fn op_str(o: &Op) -> String { match o { Op::Generate => "gen".into(), Op::FromBytes => "from".into(), Op::Clone(i) => format!("clone{}", i), Op::Drop(i) => format!("drop{}", i), Op::Unwind(i) => format!("unwind{}", i) } }
+fn ops_alphabet(slots: usize) -> Vec<Op> { let mut v = vec![Op::Generate, Op::FromBytes]; for i in 0..slots { v.push(Op::Clone(i)); v.push(Op::Drop(i)); } v.push(Op::Unwind(0)); v.push(Op::Unwind(1)); v.push(Op::CloneFrom(0, 1)); v.push(Op::CloneFrom(1, 0)); v.push(Op::CloneFrom(2, 1)); v }
+fn op_str(o: &Op) -> String { match o { Op::Generate => "gen".into(), Op::FromBytes => "from".into(), Op::Clone(i) => format!("clone{}", i), Op::Drop(i) => format!("drop{}", i), Op::Unwind(i) => format!("unwind{}", i), Op::CloneFrom(i, j) => format!("clonefrom{}<-{}", i, j) } }
 
 /// run a program on PrivateKey values; returns Err(description) on the first violation
 fn run_private(prog: &[Op]) -> Result<usize, String> {
@@ -23,6 +23,20 @@ fn run_private(prog: &[Op]) -> Result<usize, String> {
             Op::Generate => { let k = PrivateKey::generate(); let b = k.as_bytes().to_vec(); kalloc::drops::watch(k.as_bytes().as_ptr() as usize, 32); live.push(Some((k, b))); }
             Op::FromBytes => { let raw: Vec<u8> = (0..32).map(|i| (step * 37 + i * 11 + 1) as u8).collect(); let k = PrivateKey::try_from(raw.as_slice()).unwrap(); kalloc::drops::watch(k.as_bytes().as_ptr() as usize, 32); live.push(Some((k, raw))); }
             Op::Clone(i) => { if let Some(Some((k, b))) = live.get(*i) { let c = k.clone(); if c.as_bytes().as_ptr() == k.as_bytes().as_ptr() { return Err(format!("step {}: clone shares its buffer with the original", step)); } kalloc::drops::watch(c.as_bytes().as_ptr() as usize, 32); let b = b.clone(); live.push(Some((c, b))); } }
+            Op::CloneFrom(i, j) => { if i != j && matches!(live.get(*i), Some(Some(_))) && matches!(live.get(*j), Some(Some(_))) {
+                let (src, sb) = { let (k, b) = live[*j].as_ref().unwrap(); (k.clone(), b.clone()) };     // a private copy of the source keeps the borrow checker out of the way; it is dropped (and checked) below
+                let src_addr = src.as_bytes().as_ptr() as usize; kalloc::drops::watch(src_addr, 32);
+                let (dst, db) = live[*i].as_mut().unwrap();
+                let old_addr = dst.as_bytes().as_ptr() as usize;
+                dst.clone_from(&src);
+                *db = sb;
+                let new_addr = dst.as_bytes().as_ptr() as usize;
+                if new_addr != old_addr { kalloc::drops::watch(new_addr, 32); }
+                drop(src);
+                let seen = kalloc::drops::take_seen();
+                for (a, bytes) in &seen { released += 1; if bytes.iter().any(|&x| x != 0) { return Err(format!("step {} ({}): the buffer at {:#x} ({}) was released still holding secret bytes {}", step, op_str(op), a, if *a == old_addr { "the key that clone_from replaced" } else { "a temporary" }, hex(bytes))); } }
+                if new_addr != old_addr && !seen.iter().any(|(a, _)| *a == old_addr) { return Err(format!("step {} ({}): the replaced key's buffer was neither reused nor released", step, op_str(op))); }
+            } }
             Op::Drop(i) | Op::Unwind(i) => { if let Some(slot) = live.get_mut(*i) { if let Some((k, _)) = slot.take() { let addr = k.as_bytes().as_ptr() as usize;
                 if matches!(op, Op::Unwind(_)) { let r = std::panic::catch_unwind(std::panic::AssertUnwindSafe(move || { let _held = k; panic!("fault while a key is alive"); })); let _ = r; } else { drop(k); }
                 let seen = kalloc::drops::take_seen();
@@ -45,6 +59,7 @@ fn run_payload_boxed(prog: &[Op]) -> Result<usize, String> {
         match op {
             Op::Generate | Op::FromBytes => { let raw: Vec<u8> = if *op == Op::Generate { kestrel_crypto::secure_random(32) } else { (0..32).map(|i| (step * 53 + i * 7 + 3) as u8).collect() }; let b = Box::new(PayloadKey::new(&raw)); kalloc::drops::watch(&*b as *const PayloadKey as usize, sz); live.push(Some((b, raw))); }
             Op::Clone(i) => { if let Some(Some((k, b))) = live.get(*i) { let c = Box::new((**k).clone()); kalloc::drops::watch(&*c as *const PayloadKey as usize, sz); let b = b.clone(); live.push(Some((c, b))); } }
+            Op::CloneFrom(i, j) => { if i != j && matches!(live.get(*i), Some(Some(_))) && matches!(live.get(*j), Some(Some(_))) { let (src, sb) = { let (k, b) = live[*j].as_ref().unwrap(); ((**k).clone(), b.clone()) }; let (dst, db) = live[*i].as_mut().unwrap(); (**dst).clone_from(&src); *db = sb; } }
             Op::Drop(i) | Op::Unwind(i) => { if let Some(slot) = live.get_mut(*i) { if let Some((k, _)) = slot.take() { let addr = &*k as *const PayloadKey as usize;
                 if matches!(op, Op::Unwind(_)) { let _ = std::panic::catch_unwind(std::panic::AssertUnwindSafe(move || { let _held = k; panic!("fault while a key is alive"); })); } else { drop(k); }
                 let seen = kalloc::drops::take_seen();
@@ -63,6 +78,7 @@ fn run_payload(prog: &[Op]) -> Result<usize, String> {
         match op {
             Op::Generate | Op::FromBytes => { let raw: Vec<u8> = if *op == Op::Generate { kestrel_crypto::secure_random(32) } else { (0..32).map(|i| (step * 53 + i * 7 + 3) as u8).collect() }; live.push(Some((Box::new(ManuallyDrop::new(PayloadKey::new(&raw))), raw))); }
             Op::Clone(i) => { if let Some(Some((k, b))) = live.get(*i) { let c: PayloadKey = (***k).clone(); let b = b.clone(); live.push(Some((Box::new(ManuallyDrop::new(c)), b))); } }
+            Op::CloneFrom(i, j) => { if i != j && matches!(live.get(*i), Some(Some(_))) && matches!(live.get(*j), Some(Some(_))) { let (src, sb) = { let (k, b) = live[*j].as_ref().unwrap(); ((***k).clone(), b.clone()) }; let (dst, db) = live[*i].as_mut().unwrap(); (***dst).clone_from(&src); *db = sb; } }
             Op::Drop(i) | Op::Unwind(i) => { if let Some(slot) = live.get_mut(*i) { if let Some((mut k, _)) = slot.take() {
                 // drop in place, then look at the bytes the value occupied (the Box keeps the storage alive)
                 let p = (&**k as *const PayloadKey) as *const u8;
@@ -76,22 +92,46 @@ fn run_payload(prog: &[Op]) -> Result<usize, String> {
     Ok(released)
 }
 
+/// a PayloadKey that does not start on a word boundary: one byte in front of it (what `Option<PayloadKey>` or a packed record does)
+#[repr(C)]
+struct Odd { tag: u8, key: ManuallyDrop<PayloadKey> }
+
+fn run_payload_unaligned(prog: &[Op]) -> Result<usize, String> {
+    let mut live: Vec<Option<(Box<Odd>, Vec<u8>)>> = vec![];
+    let mut released = 0usize;
+    for (step, op) in prog.iter().enumerate() {
+        match op {
+            Op::Generate | Op::FromBytes => { let raw: Vec<u8> = if *op == Op::Generate { kestrel_crypto::secure_random(32) } else { (0..32).map(|i| (step * 53 + i * 7 + 3) as u8).collect() }; live.push(Some((Box::new(Odd { tag: 1, key: ManuallyDrop::new(PayloadKey::new(&raw)) }), raw))); }
+            Op::Clone(i) => { if let Some(Some((k, b))) = live.get(*i) { let c: PayloadKey = (*k.key).clone(); let b = b.clone(); live.push(Some((Box::new(Odd { tag: 1, key: ManuallyDrop::new(c) }), b))); } }
+            Op::CloneFrom(i, j) => { if i != j && matches!(live.get(*i), Some(Some(_))) && matches!(live.get(*j), Some(Some(_))) { let (src, sb) = { let (k, b) = live[*j].as_ref().unwrap(); ((*k.key).clone(), b.clone()) }; let (dst, db) = live[*i].as_mut().unwrap(); (*dst.key).clone_from(&src); *db = sb; } }
+            Op::Drop(i) | Op::Unwind(i) => { if let Some(slot) = live.get_mut(*i) { if let Some((mut k, _)) = slot.take() {
+                let p = (&*k.key as *const PayloadKey) as *const u8;
+                unsafe { ManuallyDrop::drop(&mut k.key); }
+                let after: Vec<u8> = unsafe { std::slice::from_raw_parts(p, std::mem::size_of::<PayloadKey>()) }.to_vec();
+                released += 1; let _ = k.tag;
+                if after.iter().any(|&x| x != 0) { return Err(format!("step {} ({}): a dropped PayloadKey at address {:#x} (one byte past a word boundary) still holds {}", step, op_str(op), p as usize, hex(&after))); } } } }
+        }
+        for (j, s) in live.iter().enumerate() { if let Some((k, b)) = s { if k.key.as_bytes() != &b[..] { return Err(format!("step {}: payload key {} changed after {}", step, j, op_str(op))); } } }
+    }
+    Ok(released)
+}
+
 impl Prop for C20 {
     fn id(&self) -> &'static str { "C20" }
     fn rule(&self) -> String {
-        "all programs of up to 5 (quick) / 6 (thorough) operations over {generate, from-bytes, clone i, drop i, unwind i (the container is dropped by stack unwinding out of a panic)} with up to 3 live slots, run on real PrivateKey values (heap buffer watched by a global allocator: contents inspected at the moment of deallocation) \
-         on PayloadKey values dropped in place inside a ManuallyDrop slot (bytes read afterwards) and on heap-resident Box<PayloadKey> values (block inspected by the allocator, which lives in a crate of its own so that the optimiser cannot see through it); every release must carry zeros, clones must own their own buffer, dropping one container must not change another; \
+        "all programs of up to 5 (quick) / 6 (thorough) operations over {generate, from-bytes, clone i, drop i, unwind i (the container is dropped by stack unwinding out of a panic), i.clone_from(j) (the value i held is replaced)} with up to 3 live slots, run on real PrivateKey values (heap buffer watched by a global allocator: contents inspected at the moment of deallocation) \
+         on PayloadKey values dropped in place inside a ManuallyDrop slot (bytes read afterwards), also at an address one byte past a word boundary, and on heap-resident Box<PayloadKey> values (block inspected by the allocator, which lives in a crate of its own so that the optimiser cannot see through it); every release must carry zeros, clones must own their own buffer, dropping one container must not change another; \
          plus the library's own use: after key_encrypt / key_decrypt return, no live heap block of the call holds the payload key. non-trivial = distinct program with at least one drop".into()
     }
     fn cases(&self, tier: &str, _seed: u64) -> Vec<Case> {
         let maxlen = if tier == "thorough" { 6 } else { 5 };
         let alpha = ops_alphabet(3).len();
         let mut v = vec![];
-        for ty in ["private", "payload", "payload-boxed"] {
+        for ty in ["private", "payload", "payload-boxed", "payload-unaligned"] {
             let mut total = 0usize; let mut p = 1usize;
             for _ in 0..=maxlen { total += p; p *= alpha; }
             // programs are enumerated by index; those without a drop are skipped inside `run` cheaply — to keep the count manageable, stride in quick
-            let stride = if tier == "thorough" { 1 } else { 3 };
+            let stride = if tier == "thorough" { 1 } else { 7 };
             let mut idx = 0; while idx < total { v.push(case(&[("ty", ty.into()), ("idx", idx.to_string())])); idx += stride; }
         }
         v
@@ -103,7 +143,7 @@ impl Prop for C20 {
         while idx >= p { idx -= p; p *= n; len += 1; }
         let prog: Vec<Op> = (0..len).map(|_| { let o = alpha[idx % n]; idx /= n; o }).collect();
         let text = prog.iter().map(op_str).collect::<Vec<_>>().join(",");
-        let r = match get(c, "ty") { "private" => run_private(&prog), "payload" => run_payload(&prog), _ => run_payload_boxed(&prog) };
+        let r = match get(c, "ty") { "private" => run_private(&prog), "payload" => run_payload(&prog), "payload-unaligned" => run_payload_unaligned(&prog), _ => run_payload_boxed(&prog) };
         o.model_obs = "every release carries zeros (C20_lifecycle)".into();
         match r {
             Ok(rel) => { o.impl_obs = format!("[{}]: {} releases, all zero", text, rel); if rel > 0 { o.nontrivial = Some(format!("{}/{}", get(c, "ty"), text)); o.validated += 1; } o.tags.push(format!("{} releases={}", get(c, "ty"), rel.min(3))); }
